@@ -7,6 +7,8 @@ A property module `harness/props/Cxx.py` provides:
     ID                : "Cxx"
     LEAN_MODULE       : "UralModel.Props.Cxx"        (lake target holding the theorems)
     THEOREMS          : [fully qualified theorem names that must exist, axioms audited]
+    EXTRA_IMPORTS     : optional, further Lean modules holding listed theorems (built and
+                        imported by the audit next to LEAN_MODULE)
     TABLE_OBLIGATIONS : [names of `decide`-style obligations over regenerated tables] (subset
                         of what LEAN_MODULE proves; listed separately for the evidence)
     RULE              : text, how cases are generated and what "non-trivial" means
@@ -243,9 +245,74 @@ def _driver(lines):
     return out
 
 
+_cov = None
+
+
+def _cov_start():
+    """line coverage of the implementation under the streams (evidence only: shows which
+    anchored lines the correspondence and the oracle actually exercised). ural is re-imported
+    under the tracer once per worker process so that module-level lines count too."""
+    global _cov, _ural
+    if _cov is not None or os.environ.get("VERIF_COVERAGE", "1") == "0":
+        return
+    try:
+        import coverage
+
+        _cov = coverage.Coverage(
+            data_file=None, branch=False, config_file=False, include=[os.path.join(os.path.realpath(REPO), "ural", "*")]
+        )
+        _cov.start()
+        _ural = None
+        ural()
+    except Exception:  # noqa
+        _cov = False
+
+
+def _cov_lines():
+    if not _cov:
+        return {}
+    try:
+        data = _cov.get_data()
+        root = os.path.realpath(REPO) + os.sep
+        return {f[len(root):]: sorted(data.lines(f) or []) for f in data.measured_files() if f.startswith(root)}
+    except Exception:  # noqa
+        return {}
+
+
+def coverage_report(prop, lines):
+    """per anchored file: executable statements, how many the streams executed, first missing"""
+    files = list(getattr(prop, "ANCHOR_FILES", []))
+    if not files:
+        try:
+            for l in open(os.path.join(VERIF, "properties.jsonl"), encoding="utf-8"):
+                d = json.loads(l)
+                if d["id"] == prop.ID:
+                    files = [f for f in d["anchors"]["files"] if f.endswith(".py")]
+        except Exception:  # noqa
+            files = []
+    rep = {}
+    try:
+        import coverage
+
+        c = coverage.Coverage(data_file=None, config_file=False)
+        for rel in files:
+            path = os.path.join(os.path.realpath(REPO), rel)
+            if not os.path.exists(path):
+                continue
+            _, stmts, _, _, _ = c.analysis2(path)
+            # big literal tables are single statements; nothing special needed
+            hit = set(lines.get(rel, []))
+            missing = [n for n in stmts if n not in hit]
+            rep[rel] = {"statements": len(stmts), "executed": len(stmts) - len(missing), "missing_lines": missing[:60]}
+    except Exception as e:  # noqa
+        rep["error"] = str(e)
+    return rep
+
+
 def _work(args):
     pid, cases, do_model = args
     prop = _load_prop(pid)
+    _cov_start()
     ural()
     canon = getattr(prop, "canon", None)
     t0 = time.time()
@@ -324,6 +391,7 @@ def _work(args):
         res["infra"] = str(e)
     res["nontrivial"] = list(res["nontrivial"])
     res["wall"] = time.time() - t0
+    res["cov"] = _cov_lines()
     return res
 
 
@@ -340,10 +408,12 @@ def explore(prop, cases, do_model=True, jobs=NCPU):
     else:
         with ProcessPoolExecutor(max_workers=jobs) as ex:
             results = list(ex.map(_work, [(prop.ID, ch, do_model) for ch in chunks]))
-    tot = {"n": 0, "lines": 0, "disagree": [], "fail": [], "nontrivial": set(), "errors": 0, "hist": {}, "samples": [], "known": {}}
+    tot = {"n": 0, "lines": 0, "disagree": [], "fail": [], "nontrivial": set(), "errors": 0, "hist": {}, "samples": [], "known": {}, "cov": {}}
     for r in results:
         if r["infra"]:
             raise Infra(r["infra"])
+        for f, ls in r.get("cov", {}).items():
+            tot["cov"].setdefault(f, set()).update(ls)
         tot["n"] += r["n"]
         tot["lines"] += r["lines"]
         tot["errors"] += r["errors"]
@@ -414,7 +484,7 @@ def run_check(pid, tier="quick", seed=0, replay=None):
         tr = {"digest": None, "changed": []}
 
     # 2. prove: build the property's theorems and the driver, audit axioms
-    ok, out = lake_build([prop.LEAN_MODULE, "driver"])
+    ok, out = lake_build([prop.LEAN_MODULE] + list(getattr(prop, "EXTRA_IMPORTS", [])) + ["driver"])
     build_log = out[-4000:]
     audit_res = {}
     if not ok:
@@ -574,6 +644,7 @@ def run_check(pid, tier="quick", seed=0, replay=None):
             "samples": tot["samples"][:4],
             "distribution": dict(sorted(tot["hist"].items())),
             "impl_error_outputs": tot["errors"],
+            "impl_line_coverage": coverage_report(prop, tot.get("cov", {})),
             "oracle_failures_unlisted": len(new_fail),
             "known_findings_seen": sorted(seen_known),
             "failing_input_search_candidates": searched,
